@@ -16,6 +16,12 @@ func (rs *RecordSet) readFromVersion2(d *decoder) error {
 		return nil
 	}
 
+	if batchLength < 49 {
+		// Shorter than the fixed part of a record batch.
+		d.discardAll()
+		return fmt.Errorf("invalid record batch length: %d", batchLength)
+	}
+
 	dec := &decoder{
 		reader: d,
 		remain: int(batchLength),
